@@ -31,6 +31,13 @@ argument) and restates the containment without it, SymmetricMode excluded —
   `symbNaive_contains_factors_coletree`            tree = `coletree` of the columns handed to the factorization;
   `symbNaive_contains_factors_spPreorder`          tree and columns = what `sp_preorder` returns (no tree hypothesis left);
   `symbNaive_contains_numeric_coletree`            the numeric model.
+SYMMETRIC PRUNING (Lemmas/Prune.lean; the schedule side is in Props/C02.lean): the searches of the
+library scan row lists cut by [sdcz]pruneL.  Proved at column level —
+  `column_struct_pruned_search`     with the list of any column cut at ANY symmetric pair, the search for column
+                                    `t` meets exactly `reach(t)`: same structure of `U(:,t)`, same new rows of `L(:,t)`;
+  `pruned_search_contains_numeric`  hence it meets every numeric nonzero of `U(:,t)` and `L(:,t)`.
+What remains tied by family `symb` only: that [sdcz]pruneL.c cuts at symmetric pairs and keeps exactly the
+pivotal rows, that the C searches scan `xlsub[k] .. xprune[k]-1`, and pruning on supernode representatives.
 -/
 namespace Slu.Struct
 open Slu
@@ -353,6 +360,39 @@ theorem column_struct_contains_numeric {K : Type} [Field K] (n : Nat) (B L U : N
     ∀ j < n, (∀ i < n, L i j ≠ 0 → ColStruct cols j i) ∧ (∀ k < n, U k j ≠ 0 → ColUStruct cols j k) :=
   colStruct_contains_LU n B L U cols hcols hB hL1 hL0 hU0 hUd
 
+/-- **C03 (the pruned search computes the column-level structure).**  `LStruct cols k r` / `UStruct cols j k`:
+the off-diagonal parts of `ColStruct` / `ColUStruct`.  Let `p` cut the row list of any columns `k` at ANY
+column `c` forming a symmetric pair with `k` (`k < c`, `c ∈ struct(L_k)`, `k ∈ struct(U(:,c))`) — what
+[sdcz]pruneL does.  Then for every column `t` the rows met by the search of [sdcz]column_dfs on the
+PRUNED lists (`HitsPruned`: the rows of `B(:,t)`, and the rows in the scanned part of the list of every
+column reached from a pivotal row `s < t` of `B(:,t)` through scanned pivotal rows) are exactly
+`reach(t) = ColReach cols t`; in particular the pivotal ones (`< t`) are the structure of `U(:,t)` and
+the non-pivotal ones (`> t`) the structure of `L(:,t)`. -/
+theorem column_struct_pruned_search (cols : Nat → List Nat) (p : Nat → Option Nat)
+    (hp : ∀ k c, p k = some c → SymPair (LStruct cols) (UStruct cols) k c) (t r : Nat) :
+    (ColReach cols t r ↔ HitsPruned (LStruct cols) p t (fun s => s ∈ cols t ∧ s < t) (fun r => r ∈ cols t) r) ∧
+    (ColUStruct cols t r ↔ r = t ∨ (r < t ∧ HitsPruned (LStruct cols) p t (fun s => s ∈ cols t ∧ s < t) (fun r => r ∈ cols t) r)) ∧
+    (ColStruct cols t r ↔ r = t ∨ (t < r ∧ HitsPruned (LStruct cols) p t (fun s => s ∈ cols t ∧ s < t) (fun r => r ∈ cols t) r)) := by
+  have h := colReach_iff_prunedSearch cols p hp t r
+  exact ⟨h, by unfold ColUStruct; rw [h], by unfold ColStruct; rw [h]⟩
+
+/-- **C03 (the pruned search finds every numeric nonzero).**  Setting of `column_struct_contains_numeric`
+and of `column_struct_pruned_search`: every nonzero of `U(:,t)` above the diagonal and every nonzero of
+`L(:,t)` below it is met by the search for column `t` on the pruned lists. -/
+theorem pruned_search_contains_numeric {K : Type} [Field K] (n : Nat) (B L U : Nat → Nat → K) (cols : Nat → List Nat)
+    (hcols : ∀ i < n, ∀ j < n, B i j ≠ 0 → i ∈ cols j)
+    (hB : ∀ i < n, ∀ j < n, B i j = ∑ t ∈ Finset.range n, L i t * U t j)
+    (hL1 : ∀ i < n, L i i = 1) (hL0 : ∀ i < n, ∀ t < n, i < t → L i t = 0)
+    (hU0 : ∀ t < n, ∀ j < n, j < t → U t j = 0) (hUd : ∀ j < n, U j j ≠ 0)
+    (p : Nat → Option Nat) (hp : ∀ k c, p k = some c → SymPair (LStruct cols) (UStruct cols) k c) :
+    ∀ t < n,
+      (∀ k < t, U k t ≠ 0 → HitsPruned (LStruct cols) p t (fun s => s ∈ cols t ∧ s < t) (fun r => r ∈ cols t) k) ∧
+      (∀ i < n, t < i → L i t ≠ 0 → HitsPruned (LStruct cols) p t (fun s => s ∈ cols t ∧ s < t) (fun r => r ∈ cols t) i) := by
+  intro t ht
+  obtain ⟨h1, h2⟩ := colReach_contains_LU n B L U cols hcols hB hL1 hL0 hU0 hUd t ht
+  exact ⟨fun k hk hne => (colReach_iff_prunedSearch cols p hp t k).mp (h1 k hk hne),
+    fun i hi hti hne => (colReach_iff_prunedSearch cols p hp t i).mp (h2 i hi hti hne)⟩
+
 /-- **C03 (soundness of the predicted structure, any exact factorization).**  Same setting; any `maxsuper`,
 any `relaxEnd` with `RelaxOk`.  For every column `j`, with `s = supno[j]` its predicted supernode:
 every nonzero `L(i,j)` has its row `i` in the row list of `s` at or after position `j - xsup[s]` (the part
@@ -445,6 +485,30 @@ example : (fillCols 3).get 1 = 0 ∧ ((LU.luFactor fillP false).U.getD 3 #[]).ge
     1 ∈ (symbNaive 4 2 fillPat (fun _ => none)).ucols[3]! :=
   ⟨by decide +kernel, by decide +kernel,
    ((fill_contains 3 (by decide)).2 1 (by decide +kernel)).resolve_right (by decide +kernel)⟩
+
+/-! non-vacuity of the pruning statements on `fillPat`: `(0, 1)` is a symmetric pair (`B(1,0) ≠ 0`,
+`B(0,1) ≠ 0`); cutting column 0 at column 1 removes row 3 from its list, and the search for column 3
+still meets row 3 — through the fill entry `3 ∈ struct(1)` -/
+def fillCut : Nat → Option Nat
+  | 0 => some 1
+  | _ => none
+
+theorem fillCut_sym : ∀ k c, fillCut k = some c → SymPair (LStruct fillPat) (UStruct fillPat) k c := by
+  intro k c h
+  match k with
+  | 0 =>
+    cases h
+    exact ⟨by decide, ⟨by decide, ColReach.base (by decide +kernel)⟩, ⟨by decide, ColReach.base (by decide +kernel)⟩⟩
+  | (_ + 1) => simp [fillCut] at h
+
+/-- row 3 is in the full list of column 0 but not in the list scanned by the search for column 3 … -/
+example : LStruct fillPat 0 3 ∧ ¬ PrunedStruct (LStruct fillPat) fillCut 3 0 3 :=
+  ⟨⟨by decide, ColReach.base (by decide +kernel)⟩, fun h => absurd (h.2 1 rfl (by decide)) (by decide)⟩
+/-- … the fill row 3 of column 1 is scanned, and the theorem gives the reach of column 3 on the cut lists -/
+example : PrunedStruct (LStruct fillPat) fillCut 3 1 3 :=
+  ⟨⟨by decide, ColReach.step (k := 0) (ColReach.base (by decide +kernel)) (by decide) (by decide) (ColReach.base (by decide +kernel))⟩,
+    fun c h => by simp [fillCut] at h⟩
+example (r : Nat) := column_struct_pruned_search fillPat fillCut fillCut_sym 3 r
 
 /-- with a relaxed supernode `[0..1]` (`relax_end[0] = 1`; `RelaxOk` holds: nothing lies above row 0) the
 hypotheses hold as well -/
